@@ -106,8 +106,10 @@ func placedAttached(c *Ctx) {
 				n++
 				key := types.ExprString(ix.Index)
 				attached := false
+				attachedIdx := -1
 				// search the same statement list (and nested statements of its siblings)
-				for _, sib := range list {
+				for sibIdx, sib := range list {
+					sibIdx := sibIdx
 					ast.Inspect(sib, func(m ast.Node) bool {
 						a2, ok := m.(*ast.AssignStmt)
 						if !ok || len(a2.Rhs) != 1 {
@@ -122,6 +124,7 @@ func placedAttached(c *Ctx) {
 								for _, arg := range ce.Args[1:] {
 									if k := lookupKeyOf(d, arg); k != "" && normText(k) == normText(key) {
 										attached = true
+										attachedIdx = sibIdx
 									}
 								}
 							}
@@ -134,6 +137,39 @@ func placedAttached(c *Ctx) {
 					})
 				}
 				construct := fmt.Sprintf("%s#%s[%s]", d.name, placedField, key)
+				// … on every path: between the mark and the attachment nothing may leave the iteration
+				// (an error return aborts the whole serialization and is fine)
+				if attached && attachedIdx >= 0 {
+					storeIdx := -1
+					for i, st2 := range list {
+						if st2 == ast.Stmt(as) {
+							storeIdx = i
+						}
+					}
+					if storeIdx >= 0 && storeIdx < attachedIdx {
+						for _, mid := range list[storeIdx+1 : attachedIdx] {
+							leaves := ""
+							ast.Inspect(mid, func(m ast.Node) bool {
+								switch b := m.(type) {
+								case *ast.FuncLit:
+									return false
+								case *ast.BranchStmt:
+									if b.Tok == token.CONTINUE || b.Tok == token.BREAK {
+										leaves = b.Tok.String()
+									}
+								case *ast.ReturnStmt:
+									if n := len(b.Results); n > 0 && isNilIdent(d.pkg, b.Results[n-1]) {
+										leaves = "return with a nil error"
+									}
+								}
+								return true
+							})
+							if leaves != "" {
+								c.bad(R, construct+"#every-path", c.P.Pos(mid.Pos()), fmt.Sprintf("component %s is marked as placed and the attachment follows, but a `%s` between the two leaves the iteration first: on that path the component is placed nowhere and missing from the top level", key, leaves))
+							}
+						}
+					}
+				}
 				c.check(attached, R, construct, c.P.Pos(as.Pos()), "marked as placed and attached in the same statement list",
 					fmt.Sprintf("component %s is marked as placed (%s) but is not attached to any Components list or to Metadata.Component in the same statement list: components() will not emit it at top level, so it vanishes from the output while other elements still refer to it", key, types.ExprString(as.Lhs[0])))
 			}
